@@ -344,13 +344,21 @@ func c17Write(rec *vk.Rec, ci int) {
 	rate := []int{1, 3, 60, 1000}[r.Intn(4)]
 	cl, sv := fakenet.Pair()
 	sv.LogWrites()
-	conn := listener.VerifNewConn(sv, rate)
-	defer conn.Close()
 	nw := r.Range(1, 200)
 	slow := ci%200 == 2 // a few cases pause across the 1 s timer flush
 	if slow {
 		nw = r.Range(3, 7)
 	}
+	// a few cases run against a slow socket (every socket write takes 20 ms) while the writer keeps writing
+	// across the 1 s timer flush: the flush is then inside socket.Write while further writes are queued
+	slowSock := ci%200 == 6 || ci%200 == 106
+	if slowSock {
+		rate = []int{1, 3}[r.Intn(2)]
+		nw = r.Range(50, 70)
+		sv.SetWriteHook(func(int) { time.Sleep(20 * time.Millisecond) })
+	}
+	conn := listener.VerifNewConn(sv, rate)
+	defer conn.Close()
 	var want []byte
 	queuedSeen := false
 	for i := 0; i < nw; i++ {
@@ -368,7 +376,9 @@ func c17Write(rec *vk.Rec, ci int) {
 		if conn.Len() > 0 {
 			queuedSeen = true
 		}
-		if slow && r.Chance(40) {
+		if slowSock {
+			time.Sleep(time.Duration(r.Range(15, 30)) * time.Millisecond)
+		} else if slow && r.Chance(40) {
 			time.Sleep(time.Duration(r.Range(300, 1200)) * time.Millisecond)
 		} else if r.Chance(5) {
 			time.Sleep(time.Duration(r.Range(1, 3)) * time.Millisecond)
@@ -385,8 +395,11 @@ func c17Write(rec *vk.Rec, ci int) {
 	if queuedSeen {
 		rec.Inc("transfers_with_queued_writes")
 	}
-	if slow {
+	if slow || slowSock {
 		rec.Inc("transfers_across_timer_flush")
+	}
+	if slowSock {
+		rec.Inc("transfers_on_slow_socket")
 	}
 	rec.Case(vk.Hash("write", rate, nw, len(want), slow), queuedSeen && nw >= 2)
 	if !bytes.Equal(got, want) {
